@@ -229,7 +229,8 @@ def o_roundtrip(rec: Recorder, case, soft=False):
     d = diff(before, after)
     if d:
         k = sorted(d, key=str)[0]
-        rec.fail(f"C10/roundtrip-differs/{via}/{str(k).split(':')[0]}", f"a context rebuilt via {via} does not have the same exported configuration / decisions", "roundtrip", case, {str(x): repr(d[x][1])[:120] for x in list(d)[:3]}, {str(x): repr(d[x][0])[:120] for x in list(d)[:3]}, soft=soft)
+        upper = any(k2.count("__") == 2 and k2.split("__")[0] != k2.split("__")[0].lower() for k2 in cfg) and via in ("string", "string-section", "load-string")
+        rec.fail(f"C10/roundtrip-differs/{via}/{'uppercase-category' if upper else str(k).split(':')[0]}", f"a context rebuilt via {via} does not have the same exported configuration / decisions", "roundtrip", case, {str(x): repr(d[x][1])[:120] for x in list(d)[:3]}, {str(x): repr(d[x][0])[:120] for x in list(d)[:3]}, soft=soft)
         return
     if observe(ctx, bank) != before:
         rec.fail(f"C10/export-mutates/{via}", "exporting / copying changed the original context", "roundtrip", case, None, None, soft=soft)
@@ -489,6 +490,11 @@ def t_roundtrip(rec, seed, tier, shard):
         o_roundtrip(rec, case)
 
     hyp_campaign(rec, body, cases, n, seed + shard, shrink_budget=20)
+    if shard == 0:
+        # directed: a user category spelled with capitals (INI option names are case-folded by the parser)
+        for via in VIAS:
+            rec.ev()
+            o_roundtrip(rec, {"config": {"schemes": ["md5_crypt", "des_crypt"], "Admin__context__default": "des_crypt"}, "via": via}, soft=True)
 
 
 def t_update(rec, seed, tier, shard):
